@@ -104,6 +104,12 @@ impl Prog {
 
     /// Build the circuit and the witness assignment of its inputs.
     pub fn build(&self, config: CircuitConfig) -> (CircuitData<F, C, D>, PartialWitness<F>) {
+        let (d, pw, _) = self.build_with_targets(config);
+        (d, pw)
+    }
+
+    /// like `build`, also returning the target of every program variable
+    pub fn build_with_targets(&self, config: CircuitConfig) -> (CircuitData<F, C, D>, PartialWitness<F>, Vec<Target>) {
         let mut b = CircuitBuilder::<F, D>::new(config);
         let mut pw = PartialWitness::new();
         let mut t: Vec<Target> = vec![];
@@ -160,7 +166,7 @@ impl Prog {
             };
             t.push(tg);
         }
-        (b.build::<C>(), pw)
+        (b.build::<C>(), pw, t)
     }
 }
 
